@@ -49,6 +49,20 @@ def handle (line : String) : String :=
         out id (model == i) (b2s specOk) cls known model
       | _, _ => bad id "parse-request"
     | _, _ => bad id "parse-table"
+  | "us" :: id :: rest =>
+    match parseTable rest, impl with
+    | some (raws, []), [i] =>
+      match raws.mapM (fun r => (toEndpoint r).toOption) with
+      | none => bad id "template"
+      | some eps =>
+        let model := match unversionedServerStarts eps with
+          | none => "not-accepted" | some true => "started" | some false => "refused"
+        -- specification: an unversioned server starts iff every endpoint is unrestricted
+        let allUnrestricted := raws.all fun r => r.range.isAll
+        let specOk := i == (if allUnrestricted then "started" else "refused")
+        let lastAll := match raws.getLast? with | some r => r.range.isAll | none => true
+        out id (model == i) (b2s specOk) s!"us-{model}-{if lastAll then "lastAll" else "lastVer"}-n{raws.length}" "-" model
+    | _, _ => bad id "parse-us"
   | _ => bad "?" "unknown-stream"
 
 end Dropshot.DriverC01
